@@ -26,7 +26,7 @@ def run(ctx):
     ctx.cov["histories"] = nh
     ctx.cov["traces_validated_against_impl"] = nh
     import loadedworld
-    lh = loadedworld.stream(ctx, g, ctx.rng, 6 if ctx.quick else 150, 12 if ctx.quick else 30, "loaded")
+    lh = loadedworld.stream(ctx, g, ctx.rng, 6 if ctx.quick else 150, 12 if ctx.quick else 30, "loaded", what={"byte_intervals_on", "byte_intervals_at", "sections_on", "sections_at", "extent"})
     ctx.cov["histories_continued_from_loaded_files"] = len(lh)
     ctx.cov["rule"] = ("random edit histories of %d steps (offset/size/address edits, moves between intervals/sections/modules/IRs, removal, re-adding) "
                        "with lookups at points and ranges around every boundary (+-1), steps 1-3, empty ranges, zero-sized and overlapping "
